@@ -34,6 +34,7 @@ uint64_t g_woff;    /* witness: file offset ... */
 uint8_t g_wval;     /* ... and the byte the file holds there */
 uint64_t g_fuel;    /* finite but arbitrary number of EINTRs still to come */
 unsigned g_calls;
+unsigned g_ncalls;
 
 #include "lib/sqfs/src/io/file.c"
 
@@ -49,6 +50,11 @@ ssize_t pread(int fd, void *buf, size_t n, off_t off)
 	VERIF_ASSERT(VERIF_W_OK(buf, n), "C12.read_at.buf_writable");
 	if (g_calls < 3)
 		g_calls++;
+#ifdef C12_MAX_CALLS
+	/* bounded twin (see cases.py): at most C12_MAX_CALLS system calls */
+	VERIF_ASSUME(g_ncalls < C12_MAX_CALLS);
+	g_ncalls++;
+#endif
 
 	r = c12_any_outcome(n, "pread.ret");
 	if (r < 0) {
@@ -97,6 +103,7 @@ void harness(void)
 	g_done = 0;
 	g_hard = g_zero = false;
 	g_calls = 0;
+	g_ncalls = 0;
 	g_woff = verif_nd_u64("woff");
 	g_wval = verif_nd_u8("wval");
 	g_fuel = verif_nd_u64("fuel");
